@@ -3,4 +3,4 @@ pub mod merkle;
 
 use crate::kernel::EngineDef;
 
-pub static ALL: &[&EngineDef] = &[&merkle::BMT, ];
+pub static ALL: &[&EngineDef] = &[&merkle::BMT, &merkle::SMT];
